@@ -56,6 +56,7 @@ def world_py(w):
     return {'schema': sorted([list(x) for x in w['schema']]), 'roots': sorted(w['roots']), 'shape': dict(w['shape']),
             'certs': {k: dict(v) for k, v in dict(w['certs']).items()}, 'pkts': {k: dict(v) for k, v in dict(w['pkts']).items()},
             'kt': w['kt'], 'sch': w['sch'], 'twin': dict(w['twin']) if w.get('twin') else {},
+            'replay': dict(w['replay']) if w.get('replay') else {},
             'covers': {k: sorted(v) for k, v in dict(w['covers']).items()}}
 
 
@@ -274,9 +275,17 @@ def random_world(rng):
             pkts[p]['sig'] = rng.choice(['hmac', 'unknownsig', 'hmacpub', 'digestkl', 'wrongtype'])   # right certificate, no valid signature
         elif pkts[p]['kl'] + 'b' in twin and y < 0.5:
             pkts[p]['kl'] += 'b'                  # signed by the same key, names the other certificate of that key name
+    replay = {}
+    if rng.random() < 0.4 and pkts['P1']['kl'] != 'none':
+        # P1r: other name and content, SignatureValue of P1 (validated before or after P1, by any instance)
+        shape['P1r'] = shape['P1']
+        pkts['P1r'] = {'kl': pkts['P1']['kl'], 'sig': 'replay'}
+        replay['P1r'] = 'P1'
+        if pkts['P1']['sig'] in ('forged', 'digest', 'hmac', 'unknownsig', 'hmacpub', 'digestkl', 'wrongtype'):
+            pkts['P1']['sig'] = 'k' + (pkts['P1']['kl'] if pkts['P1']['kl'] != 'Z' else 'C1')
     rts = {'two': ['root', 'oproot'], 'twin': ['root', 'root2']}.get(sch, ['root'])
     covers = {'root': ['root', 'root2'] if sch == 'twin' else ['root'], 'oproot': ['oproot']}
-    return {'schema': rel, 'roots': rts, 'covers': covers, 'twin': twin, 'shape': shape, 'certs': certs, 'pkts': pkts,
+    return {'schema': rel, 'roots': rts, 'covers': covers, 'twin': twin, 'replay': replay, 'shape': shape, 'certs': certs, 'pkts': pkts,
             'kt': 'ec', 'sch': sch}
 
 
@@ -317,6 +326,8 @@ def record(world, rng, pool, kt):
             elif a == 'Validate':
                 v = rng.choice(idle)
                 p = 'P%d' % rng.randint(1, 10)
+                if p in ('P1', 'P2') and 'P1r' in world['pkts'] and rng.random() < 0.5:
+                    p = 'P1' if rng.random() < 0.5 else 'P1r'
                 run.apply('Validate', [v, p])
                 nval += 1
                 ev.append({'a': 'Validate', 'v': v, 'p': p})
@@ -527,6 +538,9 @@ def run(ctx):
             ('heal', consts(INSTS2, ctx.pick(2, 3), 'WHeal', unk, has, anchors='MCAnchorsGood', maxheal=1), ['ec'], ctx.pick(120, 4000)),
             # two certificates of one key name (one good, one forged / not retrievable), packets naming each, both orders
             ('twincert', consts(['v1'], 2, 'WTwin', unk, has, anchors='MCAnchorsGood'), ['ec'], None),
+            # ... the same worlds (also: a forgery re-using the signature value of a genuine packet / certificate) with a
+            # second, fresh instance
+            ('history2', consts(INSTS2, 2, 'WTwin', unk, has, anchors='MCAnchorsGood'), ['ec'], ctx.pick(120, 3000)),
             # schemas with two roots of trust: anchors matching one root only / both
             ('roots', consts(INSTS2, 1, 'W2R', unk, has, anchors='MCAnchors2'), ['ec'], ctx.pick(40, 400)),
             ('ed25519', consts(INSTS2, 2, 'WEd', unk, has, anchors='MCAnchorsGood'), ['ed'], ctx.pick(30, 400))], pool, cache)
